@@ -165,7 +165,9 @@ func vmalformed(r *vrand, i int) []byte {
 	case 8:
 		var sb bytes.Buffer
 		for j := 0; j < 1+r.intn(30); j++ {
-			sb.WriteString([]string{"Copyright 2020 Foo\n", "copyright (c) [yyyy] x\n", "2020-01-02\n", "2020-jan-02\n", "  Copyright (C) 1999, Bar Inc.\n", "1.\n", "a. thing\n", "iv) stuff\n", "1.2.3 version\n", "* bullet · dot\n", "(c) 2001\n", "https://x.y/z httpsfoo\n", "see (https://www.apache.org/) or url:https://a.b/c \"https://q\"\n", "a) item (b) x\n", "under version 2.0.. of the 3... agreement 1.). x\n", "see section\n3.. of 4.5... and 1.2.-\n", "sec-\ntion 2. m. y. name\n", "lic-\nense is Copyright (C) 2003 Foo\n", "Https://A.b/c and HTTPS://d.e (Https://f) https://g\n", "the Licence, an organisation. (licence) \"programme\"; whilst- colour:\n", "II. second\n", "IV: fourth Iii. x\n", "A. first B) second\n", "XI. eleventh\nVi. sixth\n"}[r.intn(24)])
+			sb.WriteString([]string{"Copyright 2020 Foo\n", "copyright (c) [yyyy] x\n", "2020-01-02\n", "2020-jan-02\n", "  Copyright (C) 1999, Bar Inc.\n", "1.\n", "a. thing\n", "iv) stuff\n", "1.2.3 version\n", "* bullet · dot\n", "(c) 2001\n", "https://x.y/z httpsfoo\n", "see (https://www.apache.org/) or url:https://a.b/c \"https://q\"\n", "a) item (b) x\n", "under version 2.0.. of the 3... agreement 1.). x\n", "see section\n3.. of 4.5... and 1.2.-\n", "sec-\ntion 2. m. y. name\n", "lic-\nense is Copyright (C) 2003 Foo\n", "Https://A.b/c and HTTPS://d.e (Https://f) https://g\n", "the Licence, an organisation. (licence) \"programme\"; whilst- colour:\n", "II. second\n", "IV: fourth Iii. x\n", "A. first B) second\n", "XI. eleventh\nVi. sixth\n",
+				// non-ASCII punctuation and symbols that no mapping covers, behind list markers, hyphens and words
+				"\u201c1.\u201d Redistributions \u201ca.\u201d x\n", "\u201civ.\u201d and \u2018b)\u2019 y \u00abc:\u00bb\n", "the soft-\u201d\nware and hard-\u2026\nware\n", "2.\u2026 item 3.\u00b6 x 4.\u2020\n", "\u2026a. x\n\u201cCopyright 2001 Foo\u201d\n", "word\u2122 1.5\u2030 ii.\u00a7\n"}[r.intn(30)])
 		}
 		return sb.Bytes()
 	case 9:
